@@ -385,7 +385,7 @@ TABLE["C06"] += WIRING(validated=())
 # C08: six/seven value under shift
 TABLE["C08"] += [
     H("c08_value_shift_seven", timeout=1800, functions=["<Seven as Shifty>::shift_suit", "Seven::hand_rank_value"], domain="seven distinct real cards, any order, the three non-trivial shifts",
-      bound="whole domain; unwind 23", assume=S5NOTE + ["shift variant: the evaluator's value depends only on the set of base cards when all five are shifted uniformly (five-card invariance is decided on the real evaluator by c08_value_*)"], draws="(r,s)*7, then T"),
+      bound="whole domain; unwind 23", assume=S5NOTE + ["shift variant: the evaluator's value depends only on the set of base cards when all five are shifted uniformly (five-card invariance is decided on the real evaluator by c08_value_*)"], draws="(r,s)*7, T, k:u8"),
     H("c08_value_shift_six", timeout=1800, functions=["<Six as Shifty>::shift_suit", "Six::hand_rank_value"], domain="six distinct real cards, any order, the three non-trivial shifts",
       bound="whole domain; unwind 14", assume=S5NOTE, draws="(r,s)*7 (first six used), then T"),
 ]
